@@ -432,7 +432,8 @@ def run(tier, seed, acc, procs=None):
                         'fit_tilt residual OPD is read back from the plane (C04 decides fit_tilt)',
                         'after propagating a wavefront that carries tilt the model field is unknown: only view-consistency is checked there',
                         'a state whose implementation disagrees with the model is reported once and not expanded further'],
-        'require': {'overlapping-fields': 5, 'nfields=2': 10, 'chain-overlapping-fields': 2},
+        'require': {},
+        'expect': {'overlapping-fields': 5, 'nfields=2': 10, 'chain-overlapping-fields': 2},
     }
 
 
